@@ -455,27 +455,75 @@ func c03LegacyVersion(c *Ctx) {
 		return
 	}
 	v12, _ := constOf(c, "VersionTLS12")
-	okCap := false
-	ast.Inspect(fn.Body, func(n ast.Node) bool {
-		is, ok := n.(*ast.IfStmt)
-		if !ok {
-			return true
+	// legacy_version = min(configured maximum, TLS 1.2), decided on the CFG in two worlds (not on
+	// the shape of the if statement): with vers above TLS 1.2 every successful exit passes a store of
+	// VersionTLS12 (or min(vers, VersionTLS12)); with vers below it no store to vers is reachable.
+	isVers := func(e ast.Expr) bool { return an.FieldSel(info, an.Unparen(e), "clientHelloMsg", "vers") }
+	isMinCap := func(e ast.Expr) bool {
+		call, ok := an.Unparen(e).(*ast.CallExpr)
+		if !ok || len(call.Args) != 2 {
+			return false
 		}
-		be, ok := an.Unparen(is.Cond).(*ast.BinaryExpr)
-		if !ok || be.Op != token.GTR || !an.FieldSel(info, an.Unparen(be.X), "clientHelloMsg", "vers") {
-			return true
+		id, ok := an.Unparen(call.Fun).(*ast.Ident)
+		if !ok || id.Name != "min" {
+			return false
 		}
-		if k, ok := an.ConstInt(info, be.Y); !ok || k != v12 || len(is.Body.List) != 1 {
-			return true
+		if _, isB := info.Uses[id].(*types.Builtin); !isB {
+			return false
 		}
-		if as, ok := is.Body.List[0].(*ast.AssignStmt); ok && len(as.Lhs) == 1 && an.FieldSel(info, an.Unparen(as.Lhs[0]), "clientHelloMsg", "vers") {
-			if k, ok := an.ConstInt(info, as.Rhs[0]); ok && k == v12 {
-				okCap = true
+		for _, a := range call.Args {
+			if k, ok := an.ConstInt(info, a); ok && k == v12 {
+				return true
 			}
 		}
-		return true
-	})
-	r.Check(okCap, "C03.5", "makeClientHelloForApplyPreset:legacy-version-cap", c.Pos(fn.Decl), "legacy_version is capped at TLS 1.2", "legacy_version is no longer capped at TLS 1.2 (a TLS 1.3 parrot would send 0x0304 in the legacy field)")
+		return false
+	}
+	okCap, whyCap := false, "legacy_version is never set in makeClientHelloForApplyPreset"
+	var lit *c22Init
+	var capPts, constPts []an.Point
+	otherStore := ""
+	inits := c22FieldInits(fn, "clientHelloMsg", "vers")
+	for i := range inits {
+		in := inits[i]
+		switch {
+		case in.Base == nil:
+			lit = &inits[i]
+		case in.Rhs != nil && isMinCap(in.Rhs):
+			capPts = append(capPts, in.P)
+		default:
+			if k, ok := an.ConstInt(info, in.Rhs); in.Rhs != nil && ok && k == v12 {
+				capPts = append(capPts, in.P)
+				constPts = append(constPts, in.P)
+			} else {
+				otherStore = an.Str(in.Rhs)
+			}
+		}
+	}
+	switch {
+	case lit == nil:
+	case otherStore != "":
+		whyCap = "legacy_version is overwritten with " + otherStore + ", which is neither VersionTLS12 nor min(vers, VersionTLS12)"
+	case isMinCap(lit.Rhs) && len(capPts) == 0:
+		okCap = true
+	default:
+		hi := c22Explore(fn, lit.P, c22CmpVal(info, isVers, v12+1), c22PtsSet(capPts))
+		lo := c22Explore(fn, lit.P, c22CmpVal(info, isVers, v12-1), nil)
+		lowered := false
+		for _, p := range constPts {
+			if lo.Reach[p] {
+				lowered = true
+			}
+		}
+		switch {
+		case len(hi.Succ) > 0:
+			whyCap = "legacy_version is not capped at TLS 1.2: with a configured maximum above it a successful exit is reached without storing VersionTLS12 (a TLS 1.3 parrot would send 0x0304 in the legacy field)"
+		case lowered:
+			whyCap = "legacy_version is set to TLS 1.2 also when the configured maximum is below it: it is no longer min(maximum, TLS 1.2), so a spec or capture with maximum TLS 1.1/1.0 is sent with legacy_version 0x0303"
+		default:
+			okCap = true
+		}
+	}
+	r.Check(okCap, "C03.5", "makeClientHelloForApplyPreset:legacy-version-cap", c.Pos(fn.Decl), "legacy_version is min(configured maximum, TLS 1.2)", whyCap)
 	// initial value is the configured maximum
 	okInit := false
 	ast.Inspect(fn.Body, func(n ast.Node) bool {
